@@ -150,7 +150,7 @@ func TestC07(t *testing.T) {
 					return nil
 				})
 				if err != nil {
-					ferr, bad = err, append([]byte(nil), x...)
+					ferr, bad = err, keepSpare(x)
 					return false
 				}
 				return true
